@@ -35,7 +35,7 @@ type C04Spec struct {
 	Restart int    `json:"restart"` // restart the holder before every Restart-th session (0 = never)
 	// Keyshare: the holder's secret is shared with a keyshare server (a party that must learn nothing about
 	// attributes); 0 none, 1 honest server, 2 server answering with a challenge of its own choosing,
-	// 3 server answering with an incomplete message
+	// 3 server answering with an incomplete message, 4 server whose first answer (its commitments) is incomplete
 	Keyshare int `json:"keyshare,omitempty"`
 }
 
@@ -50,7 +50,7 @@ func drawC04(rt *rapid.T) C04Spec {
 	s.Nonrev = rapid.IntRange(0, 3).Draw(rt, "nonrev") == 0
 	s.Restart = rapid.IntRange(0, 3).Draw(rt, "restart")
 	if rapid.IntRange(0, 5).Draw(rt, "keyshare") == 0 {
-		s.Keyshare = rapid.IntRange(1, 3).Draw(rt, "kssmode")
+		s.Keyshare = rapid.IntRange(1, 4).Draw(rt, "kssmode")
 		s.Key = rapid.SampledFrom(kernel.KeyNamesZ128()).Draw(rt, "ksskey")
 		s.Nonrev = false
 	}
@@ -145,13 +145,29 @@ func execC04Keyshare(r *kernel.Run, s C04Spec) {
 		r.Violate("C04:keyshare-exchange-failed", map[string]any{"stage": "server-round1"}, "%v", err)
 		return
 	}
+	if s.Keyshare == 4 {
+		r.Fault("byzantine-keyshare-server")
+		comms[len(comms)-1] = &gabi.ProofPCommitment{P: comms[len(comms)-1].P}
+	}
 	for i, b := range builders {
 		b.SetProofPCommitment(comms[i])
 	}
-	rr, ch, err := gabi.KeyshareUserResponseRequest(builders, rz, hi, ctx, nonce, s.IsSig)
+	var rr gabi.KeyshareResponseRequest[string]
+	var ch *big.Int
+	if p := guard(func() { rr, ch, err = gabi.KeyshareUserResponseRequest(builders, rz, hi, ctx, nonce, s.IsSig) }); p != "" {
+		r.Violate("C04:holder-panics-on-keyshare-answer", map[string]any{"keyshare": s.Keyshare}, "KeyshareUserResponseRequest panics on the keyshare server's commitments: %s", p)
+		return
+	}
 	if err != nil {
+		if s.Keyshare == 4 {
+			r.Probe("rogue-keyshare-answer-refused")
+			return
+		}
 		r.Violate("C04:keyshare-exchange-failed", map[string]any{"stage": "user-round2"}, "%v", err)
 		return
+	}
+	if s.Keyshare == 4 {
+		return // the holder went on with an incomplete commitment: nothing was sent out yet
 	}
 	own := new(big.Int).Set(ch)
 	var crw gabi.KeyshareCommitmentRequest
